@@ -45,11 +45,15 @@ Structural(i) == out[i].k \in (NOpeners \cup {"end", "endu", "enddo", "cont"})
 InJoin(i) == \E j \in 1..Len(ed) : ed[j].t = "join" /\ ed[j].pos \in {i, i - 1}
 HasEd(t, pos) == \E j \in 1..Len(ed) : ed[j].t = t /\ ed[j].pos = pos
 
+StructKinds == {"del", "ins", "ren", "par"}
+HasStruct == \E j \in 1..Len(ed) : ed[j].t \in StructKinds
+Shifting == \E j \in 1..Len(ed) : ed[j].t \in {"del", "ins"}     \* edits that renumber the statements
+
 AddCmt ==
   /\ "cmt" \in PKinds
   /\ \E pos \in Ch(1..(N + 1)), place \in {1, 2, 3}, c \in Ch(1..NCmtCls) :
        /\ (place \in {2, 3} => pos <= N)
-       /\ ~InJoin(pos)
+       /\ ~InJoin(pos) /\ ~Shifting
        /\ (place = 3 => Splittable(pos))
        /\ (place = 2 => out[pos].k # "format")
        /\ (place \in {2, 3} => ~HasEd("sent", pos) /\ ~HasEd("garb", pos))
@@ -59,6 +63,7 @@ AddCmt ==
 
 AddCpp ==
   /\ "cpp" \in PKinds
+  /\ ~Shifting
   /\ \E pos \in Ch(1..(N + 1)), f \in Ch(1..NCppForms) : ed' = Append(ed, E("cpp", pos, f, 0))
 
 AddGarb ==
@@ -81,10 +86,10 @@ AddInc ==
 
 AddSent ==
   /\ "sent" \in PKinds
-  /\ \E pos \in Ch({i \in 1..N : IsSimple(i)}), c \in {0, 1} :
+  /\ \E pos \in Ch({i \in 1..N : IsSimple(i)}), c \in {0, 1, 2, 3} :    \* 1 continued, 2/3 with a comment / blank line between
        /\ IsSimple(pos) /\ ~HasEd("sent", pos)
        /\ ~\E j \in 1..Len(ed) : ed[j].t = "cmt" /\ ed[j].pos = pos /\ ed[j].a \in {2, 3}
-       /\ (c = 1 => Splittable(pos))
+       /\ (c >= 1 => Splittable(pos))
        /\ ed' = Append(ed, E("sent", pos, c, 0))
 
 \* free-form layout edits (C04): "brk" continuation of statement pos (a = where, b = variant:
@@ -117,10 +122,10 @@ AddMut ==
 
 InsKinds == <<"if", "do", "selcase", "where", "forall", "assoc", "block", "crit", "type", "iface", "sub", "fun">>
 AddStruct ==
-  /\ ed = <<>>
-  /\ \/ /\ "del" \in PKinds
+  /\ ~HasStruct
+  /\ \/ /\ "del" \in PKinds /\ ed = <<>>
         /\ \E pos \in Ch({i \in 1..N : Structural(i)}) : ed' = <<E("del", pos, 0, 0)>>
-     \/ /\ "ins" \in PKinds
+     \/ /\ "ins" \in PKinds /\ ed = <<>>
         /\ \E pos \in Ch(1..(N + 1)), a \in Ch(InsSet), opener \in {0, 1} : ed' = <<E("ins", pos, a, opener)>>
      \/ /\ "ren" \in PKinds
         /\ \E pos \in Ch({i \in 1..N : out[i].k \in {"end", "endu", "enddo"}}), a \in {1, 2, 3} :
@@ -130,7 +135,10 @@ AddStruct ==
                                   \/ (out[pos].k = "endu" /\ out[pos].x = 2))
              /\ (a = 3 => (out[pos].k = "end" /\ out[pos].of \in NExecCons /\ out[pos].x = 0)
                           \/ (out[pos].k = "enddo" /\ out[pos].n = 0))
-             /\ ed' = <<E("ren", pos, a, 0)>>
+             /\ ed' = Append(ed, E("ren", pos, a, 0))
+     \* one parenthesis deleted (b = 1) or added (b = 2 opening, b = 3 closing) in statement pos, outside character context
+     \/ /\ "par" \in PKinds
+        /\ \E pos \in Ch(1..N), a \in Ch(1..4), b \in {1, 2, 3} : ed' = Append(ed, E("par", pos, a, b))
 
 PStep == /\ done /\ ~pd /\ Len(ed) < MaxEdits
          /\ (AddCmt \/ AddCpp \/ AddGarb \/ AddInc \/ AddSent \/ AddStruct \/ AddLayout \/ AddMut)
@@ -153,8 +161,8 @@ InsRec(e) ==
   ELSE IF k \in {"sub", "fun"} THEN [k |-> "endu", of |-> k, v |-> 0, n |-> 0, l |-> 0, d |-> 0, x |-> 1]
   ELSE [k |-> "end", of |-> k, v |-> 1, n |-> 0, l |-> 0, d |-> 0, x |-> 0]
 Edited ==
-  IF ed = <<>> THEN out
-  ELSE LET e == ed[1] IN
+  IF ~HasStruct THEN out
+  ELSE LET e == ed[CHOOSE j \in 1..Len(ed) : ed[j].t \in StructKinds] IN
        CASE e.t = "del" -> Del(out, e.pos)
          [] e.t = "ins" -> Ins(out, e.pos, InsRec(e))
          [] e.t = "ren" ->
@@ -163,7 +171,9 @@ Edited ==
                  ELSE IF e.a = 2 THEN (IF @.k = "endu" THEN [@ EXCEPT !.x = 1] ELSE IF @.k = "enddo" THEN [@ EXCEPT !.n = 0] ELSE [@ EXCEPT !.x = 0])
                  ELSE (IF @.k = "enddo" THEN [@ EXCEPT !.n = 98] ELSE [@ EXCEPT !.x = 1, !.n = 98])]
          [] OTHER -> out
-StillValid == Accepts(Edited)
+\* a statement with unbalanced parentheses is never valid (the harness skips a deletion when the statement has none)
+ParEdit == \E j \in 1..Len(ed) : ed[j].t = "par"
+StillValid == ~ParEdit /\ Accepts(Edited)
 
 \* sequence of leaves expected in the tree when comments are kept (C11) / directives (C14):
 \* <<"s", i>> statement i ; <<"e", j>> the line(s) of edit j
